@@ -307,6 +307,15 @@ def build_go(pkg, tags="verif", race=False, out_name=None):
     cmd = ["go", "build", "-tags", tags]
     if race:
         cmd.append("-race")
+    if os.path.realpath(REPO) != "/repo":
+        # VERIF_REPO=<scratch copy of lixianmin/got>: same harness, alternative go.mod whose
+        # replace directive points at the copy (used to try seeded changes without touching /repo)
+        mf = os.path.join(td, "go.mod")
+        with open(mf, "w") as f:
+            f.write(open(os.path.join(HARNESS, "go.mod")).read().replace("=> /repo", "=> " + os.path.realpath(REPO)))
+        if os.path.exists(os.path.join(HARNESS, "go.sum")):
+            shutil.copy(os.path.join(HARNESS, "go.sum"), os.path.join(td, "go.sum"))
+        cmd.append("-modfile=" + mf)
     cmd += ["-o", out, pkg]
     rc, log = sh(cmd, cwd=HARNESS, env=GOENV, timeout=900)
     if rc != 0:
